@@ -159,6 +159,14 @@ func namedKey(t types.Type) string {
 // ifaceSpec finds the interface contract for method m called on static
 // interface type t.
 func (p *Prog) ifaceSpec(t types.Type, m *types.Func) *FuncSpec {
+	// a contract for one instantiation of a generic interface, selected by its
+	// first type argument: `interface pkg.I<string> method M`
+	if n, ok := t.(*types.Named); ok && n.TypeArgs() != nil && n.TypeArgs().Len() > 0 {
+		arg := types.TypeString(n.TypeArgs().At(0), func(pk *types.Package) string { return pk.Name() })
+		if s, ok := p.db.Ifaces[namedKey(t)+"<"+arg+">."+m.Name()]; ok {
+			return s
+		}
+	}
 	if k := namedKey(t); k != "" {
 		if s, ok := p.db.Ifaces[k+"."+m.Name()]; ok {
 			return s
